@@ -703,6 +703,9 @@ func (c *Cluster) mkRoundChange(b *Node, r specqbft.Round, wantPrepared bool) *s
 			if !has {
 				ps = append(ps, own)
 			}
+			if len(ps) > 13 {
+				ps = ps[:13]
+			}
 			js, _ := specqbft.MarshalJustifications(ps)
 			msg.RoundChangeJustification = js
 			msg.DataRound = k.r
@@ -767,6 +770,12 @@ func (c *Cluster) ByzAct() {
 					v = hp.FullData
 				}
 			}
+		}
+		if len(rcs) > 13 {
+			rcs = rcs[:13]
+		}
+		if len(prs) > 13 {
+			prs = prs[:13]
 		}
 		rcj, _ := specqbft.MarshalJustifications(rcs)
 		pj, _ := specqbft.MarshalJustifications(prs)
@@ -924,6 +933,13 @@ func (c *Cluster) ByzSendTo(from *Node, m *specqbft.SignedMessage, what string, 
 
 // MkProposal crafts a correctly signed proposal by b.
 func (c *Cluster) MkProposal(b *Node, r specqbft.Round, v []byte, rcs, prepares []*specqbft.SignedMessage) *specqbft.SignedMessage {
+	// the wire format holds at most 13 justifications per list (a longer list cannot even be hashed for signing)
+	if len(rcs) > 13 {
+		rcs = rcs[:13]
+	}
+	if len(prepares) > 13 {
+		prepares = prepares[:13]
+	}
 	rcj, _ := specqbft.MarshalJustifications(rcs)
 	pj, _ := specqbft.MarshalJustifications(prepares)
 	sm := Sign(c.KS, b.ID, &specqbft.Message{MsgType: specqbft.ProposalMsgType, Height: c.Cfg.Height, Round: r, Identifier: c.ID,
